@@ -194,7 +194,7 @@ def _seed_job(job):
 
 def run(tier: str, seed: int, only=None) -> Result:
     res = Result("C01", tier, seed, "translation_validation")
-    nmods, nfns, edepth = (24, 6, 3) if tier == "quick" else (150, 8, 4)
+    nmods, nfns, edepth = (40, 6, 3) if tier == "quick" else (200, 8, 4)
     depth, width = (3, 2) if tier == "quick" else (4, 3)
     res.assumptions = [
         "uplcsym trusted base (validated against the native evaluator)",
